@@ -297,6 +297,13 @@ class WebSocket:
         # NOTE(kgriffs): Only do this after we validate the code, to avoid
         #   masking errors.
         if self.closed:
+            if self._state != _WebSocketState.CLOSED:
+                # NOTE: The client has disconnected. The receive pump has just
+                #   been stopped for good, so record that the connection is
+                #   closed; later operations must report WebSocketDisconnected.
+                self._state = _WebSocketState.CLOSED
+                self._close_code = self._buffered_receiver.client_disconnected_code
+
             return
 
         response = {'type': EventType.WS_CLOSE, 'code': code}
@@ -308,10 +315,14 @@ class WebSocket:
             #   However, it is erroneously reported as missing on CPython 3.11.
             response['reason'] = reason
 
-        await self._asgi_send(response)
-
-        self._state = _WebSocketState.CLOSED
-        self._close_code = code
+        try:
+            await self._asgi_send(response)
+        finally:
+            # NOTE: Even if the server failed to deliver the close event, this
+            #   side of the connection is finished (the receive pump has been
+            #   stopped above).
+            self._state = _WebSocketState.CLOSED
+            self._close_code = code
 
     async def send_media(
         self,
